@@ -90,8 +90,13 @@ func (e *Exec) callFn(fn *ssa.Function, args []Value, bind []Value) (Value, *GoP
 	e.stack = append(e.stack, fn)
 	defer func() {
 		if r := recover(); r != nil {
-			switch r.(type) {
-			case pathEnd, killSentinel, internalErr:
+			switch x := r.(type) {
+			case pathEnd:
+				if (x.kind == "unsupported" || x.kind == "bound") && !strings.Contains(x.msg, " < ") {
+					x.msg += " [in" + e.stackString() + "]"
+				}
+				panic(x)
+			case killSentinel, internalErr:
 				panic(r)
 			}
 			panic(internalErr{fmt.Sprintf("%v\n  interpreting%s", r, e.stackString())})
